@@ -1,6 +1,27 @@
 import PydjinniModel.Front.Order
 import PydjinniModel.Props.C16
 import PydjinniModel.Props.C04
+/-!
+# C16 — the model finishes files in the order the specification reads them in
+
+The declarative specification (`regUpTo`, `violationsOrdered` of `Front/Spec.lean`) reads a multi-file program "in
+finish order". That order is computed by `finishOrder` / `programInOrder` (`Front/Order.lean`: a plain depth-first
+search over `@import` lines, used by the drivers). This file proves that it is the order in which the model
+(`parseOne` of `Front/Imports.lean`) finishes files — so the order is no longer trusted.
+
+* `parseOne_order`                the simulation (induction over fuel and load lists): `visited` of the search = in-progress
+                                  stack + imported set, registry = start registry + what the events so far add
+* `projAcc_loadOrder`             `finishOrder` is `loadOrder` (the search that also records `@extern` loads) without the
+                                  `@extern` events
+* `parseOne_load_order`           registration order of a successful call, `@extern` loads included, entry by entry
+* `parseOne_finish_order`         the same when no `@extern` line loaded an external type file: the files whose declarations
+                                  were registered are exactly `finishOrder`'s `finished` list, in that order
+* `loadOrder_allFinished`         `NoExternLoads fs` is sufficient for "no `@extern` load"
+* `programInOrder_eq`, `front_final_registry`   the final registry is `progRegistry builtins (programInOrder …)`
+* `FinishedAt`, `finishedAt_events`, `front_registry_is_regUpTo`
+                                  **the registry file number `i` is read against is `regUpTo builtins prog i`**
+* `finishedAt_complete`           every file of the finish order is finished (`FinishedAt`) in a successful run
+-/
 namespace Pydjinni.Front
 
 /-! ### path search: a file that is found has the normalised path of its spelling -/
@@ -860,5 +881,94 @@ theorem finishedAt_events (cfg : Cfg) (fs : FS) (R0 : Registry) {fuel : Nat} {st
     refine ⟨pre', post' ++ ext ++ [.finished file], ?_, hr⟩
     rw [hlo, List.foldl_append, List.foldl_cons, hext, hstep, he]
     simp only [List.append_assoc, List.cons_append]
+
+theorem AllFinished.left {a b : List LoadEvent} (h : AllFinished (a ++ b)) : AllFinished a :=
+  fun e he => h e (List.mem_append.mpr (Or.inl he))
+
+/-- **`regUpTo` is the registry the model reads a file against.** In a run of the front end from `root` in which no
+    `@extern` line loads an external type file: whenever the own content of a file `q` is finished, `q` is file number
+    `i` — for some `i` — of the finish order `rootOrder` (computed by `finishOrder`), hence of the program
+    `programInOrder` the specification reads, and the registry `q`'s references are bound in and its rules are checked
+    against is `regUpTo builtins prog i` = `progRegistry builtins (prog.take (i + 1))`: equal as a list of registry
+    entries — the same keys in the same order, with the same kind and arity. -/
+theorem front_registry_is_regUpTo (cfg : Cfg) (fs : FS) (builtins : Registry) (root q : APath) (r : Registry)
+    (hfin : FinishedAt cfg fs (fs.files.length + 2) [] (normPath root) root { reg := builtins } q r)
+    (hne : AllFinished (rootEvents cfg fs root)) :
+    ∃ prog i, programInOrder cfg fs.files root = some prog
+      ∧ (rootOrder cfg fs root)[i]? = some q ∧ prog[i]? = some (progFile fs q)
+      ∧ r = regUpTo builtins prog i := by
+  obtain ⟨pre, post, he, hr⟩ := finishedAt_events cfg fs builtins hfin ([normPath root], []) (SelfOk.root fs root)
+    ⟨Visited.root root, by simp⟩
+  have he' : rootEvents cfg fs root = pre ++ LoadEvent.finished q :: post := he
+  have hord : rootOrder cfg fs root
+      = pre.filterMap LoadEvent.file? ++ q :: post.filterMap LoadEvent.file? := by
+    rw [← rootEvents_files, he']
+    simp [LoadEvent.file?]
+  have hpre : AllFinished pre := by rw [he'] at hne; exact hne.left
+  refine ⟨_, (pre.filterMap LoadEvent.file?).length, programInOrder_eq cfg fs root, ?_, ?_, ?_⟩
+  · rw [hord]; simp
+  · rw [hord]; simp
+  · have htake : (rootOrder cfg fs root).take ((pre.filterMap LoadEvent.file?).length + 1)
+        = pre.filterMap LoadEvent.file? ++ [q] := by
+      rw [hord, List.take_append]
+      simp [List.take_of_length_le]
+    rw [regUpTo, ← List.map_take, htake, progRegistry_order, hr]
+    congr 1
+    rw [List.flatMap_append, List.flatMap_append]
+    conv => lhs; rw [hpre.eq_map, flatMap_evDefs_map_finished]
+    simp [evDefs]
+
+/-! ### non-vacuity
+
+Compiled evaluation with `#guard` — tests, not proofs (kernel reduction of the path-splitting functions is too slow for
+`decide`, as in `Props/C16.lean`). The model has no notion of "order" of its own: the order in which it finished the
+files is read off the final registry (every file declares a name of its own), and compared with what `finishOrder`
+says. -/
+
+/-- the registered keys of a run (built-ins dropped), or `none` if the run aborted -/
+def runKeys (cfg : Cfg) (fs : FS) (root : APath) : Option (List String) :=
+  match parseOne cfg fs (fs.files.length + 2) [] (normPath root) root { reg := [] } with
+  | .ok (_, st) => some (st.reg.map (·.key))
+  | .error _ => none
+
+def orderKeys (cfg : Cfg) (fs : FS) (root : APath) : List String := (rootOrder cfg fs root).flatMap (fileKeys fs)
+
+-- three files: `a` imports `b` and `c`, `b` imports `c`
+def exTri : FS := fsOf [("a", "@import \"b\"\n@import \"c\"\nta = enum { k; }"), ("b", "@import \"c\"\ntb = enum { k; }"),
+  ("c", "tc = enum { k; }\nnamespace ns { tc2 = enum { k; } }")]
+#guard rootOrder cfg0 exTri ["w", "a"] == [["w", "c"], ["w", "b"], ["w", "a"]]
+#guard runKeys cfg0 exTri ["w", "a"] == some ["tc", "ns.tc2", "tb", "ta"]
+#guard runKeys cfg0 exTri ["w", "a"] == some (orderKeys cfg0 exTri ["w", "a"])
+
+-- a diamond: `a` imports `b` and `c`, both import `d`
+def exDiamond : FS := fsOf [("a", "@import \"b\"\n@import \"c\"\nta = enum { k; }"), ("b", "@import \"d\"\ntb = enum { k; }"),
+  ("c", "@import \"d\"\ntc = enum { k; }"), ("d", "td = enum { k; }")]
+#guard rootOrder cfg0 exDiamond ["w", "a"] == [["w", "d"], ["w", "b"], ["w", "c"], ["w", "a"]]
+#guard runKeys cfg0 exDiamond ["w", "a"] == some ["td", "tb", "tc", "ta"]
+#guard runKeys cfg0 exDiamond ["w", "a"] == some (orderKeys cfg0 exDiamond ["w", "a"])
+
+-- a cycle with a branch: `a` imports `b` and `c`; `b` imports `c` and `a` (on the stack); `c` imports `b` (on the stack)
+def exCycle : FS := fsOf [("a", "@import \"b\"\n@import \"c\"\nta = enum { k; }"), ("b", "@import \"c\"\n@import \"a\"\ntb = enum { k; }"),
+  ("c", "@import \"b\"\ntc = enum { k; }")]
+#guard rootOrder cfg0 exCycle ["w", "a"] == [["w", "c"], ["w", "b"], ["w", "a"]]
+#guard rulesOf (front cfg0 exCycle [] ["w", "a"]) == ["circular-import", "circular-import"]
+#guard runKeys cfg0 exCycle ["w", "a"] == some ["tc", "tb", "ta"]
+#guard runKeys cfg0 exCycle ["w", "a"] == some (orderKeys cfg0 exCycle ["w", "a"])
+
+-- a self import, a missing file and a root spelled with `..`
+def exSelf : FS := fsOf [("a", "@import \"a\"\n@import \"nope\"\n@import \"b\"\nta = enum { k; }"), ("b", "tb = enum { k; }")]
+#guard rootOrder cfg0 exSelf ["w", "x", "..", "a"] == [["w", "b"], ["w", "a"]]
+#guard runKeys cfg0 exSelf ["w", "a"] == some (orderKeys cfg0 exSelf ["w", "a"])
+
+-- `@extern` lines: the external definitions are registered at the line that loads them, between the imports
+def exExtern : FS := { files := [(["w", "a"], .idl "@import \"b\"\n@extern \"e.yaml\"\n@import \"c\"\nta = enum { k; }"),
+  (["w", "b"], .idl "tb = enum { k; }"), (["w", "c"], .idl "@extern \"f.yaml\"\ntc = enum { k; }"),
+  (["w", "e.yaml"], .ext [{ key := "ext1", prim := .record, arity := 0, pos := default }]),
+  (["w", "f.yaml"], .ext [{ key := "ext2", prim := .record, arity := 1, pos := default }])] }
+#guard rootEvents cfg0 exExtern ["w", "a"]
+  == [.finished ["w", "b"], .extern ["w", "e.yaml"], .extern ["w", "f.yaml"], .finished ["w", "c"], .finished ["w", "a"]]
+#guard runKeys cfg0 exExtern ["w", "a"] == some ["tb", "ext1", "ext2", "tc", "ta"]
+#guard runKeys cfg0 exExtern ["w", "a"] == some (((rootEvents cfg0 exExtern ["w", "a"]).flatMap (evDefs exExtern)).map (·.key))
+#guard rootOrder cfg0 exExtern ["w", "a"] == [["w", "b"], ["w", "c"], ["w", "a"]]
 
 end Pydjinni.Front
